@@ -101,8 +101,17 @@ class Pipeline:
                   "does not propagate a pass's failure as False", COMPILER, rp)
         # no try/except around the pass loops that would swallow a CompileException
         tries = [n for n in ast.walk(c) if isinstance(n, ast.Try)] + [n for n in ast.walk(rp) if isinstance(n, ast.Try)]
-        col.check(not tries, rule, f"{COMPILER}::Compiler.Compile exceptions", "a CompileException raised by a pass propagates out of Compile (no Result)",
-                  "Compile/__RunPass catch exceptions: a rejected program could still yield a Result", COMPILER, c)
+        # ... and no recovery region (`with CompileExceptionToErrorHandler(...)`) around a pass run
+        regions = [n for f_ in (c, rp) for n in ast.walk(f_) if isinstance(n, ast.With) and any("ErrorHandler" in unparse(it.context_expr) for it in n.items)
+                   and any(isinstance(x, ast.Call) and last_attr(x) in ("Process", "__RunPass") for x in ast.walk(n))]
+        col.check(not tries and not regions, rule, f"{COMPILER}::Compiler.Compile exceptions", "a CompileException raised by a pass propagates out of Compile (no Result)",
+                  "Compile/__RunPass catch exceptions or run passes inside a recovery region: an error that a pass reports by raising (parameter clashes, errors in lowering) is swallowed and the program yields a Result", COMPILER, (tries + regions + [c])[0])
+        # the verdict tested is that of the pass just run: the loop does not collect results to test them later
+        for attr in ("astPasses", "irPasses"):
+            for lp in [n for n in ast.walk(c) if isinstance(n, ast.For) and attr in unparse(n.iter)]:
+                deferred = [n for n in ast.walk(lp) if isinstance(n, (ast.Assign, ast.AugAssign)) and any(isinstance(x, ast.Call) and last_attr(x) in ("__RunPass", "Process") for x in ast.walk(n))]
+                col.check(not deferred, rule, f"{COMPILER}::Compiler.Compile {attr} verdict is tested per pass", "`if not self.__RunPass(...)` inside the loop",
+                          f"`{unparse(deferred[0])[:60] if deferred else ''}` stores the pass result instead of testing it at once: a later pass overwrites it, only the last pass decides", COMPILER, deferred[0] if deferred else lp)
         # lowering happens after the AST pass loop
         order = []
         for st in c.body:
@@ -220,5 +229,6 @@ class Pipeline:
                 vals = [n.value for n in ast.walk(proc) if isinstance(n, ast.Assign) and isinstance(n.targets[0], ast.Name) and n.targets[0].id == a0.id]
                 src_ = vals[0] if len(vals) == 1 else None
             fresh_h = isinstance(src_, ast.Call) and last_attr(src_) == "ErrorHandler" and (not visits or seth[0].lineno < visits[0].lineno)
+        # (the contracts of Pass / Visitor / Errors themselves are checked once per property by driver.run_rules: nslsa/infra.py)
         col.check(fresh_h, rule, f"{PASS}::MakePassFromVisitor.Process uses a fresh error handler", "ErrorHandler() is created per Process call and installed before the visit",
                   "the error handler is not created inside Process: diagnostics of an earlier run (with positions of an earlier text) are kept and printed again", PASS, proc)
